@@ -60,3 +60,13 @@ def run(cx):
         cx.add('I-AFFINE', fn.short, r == want, 'G1 affine conversion returns (X/Z^2, Y/Z^3, 1) or (X, Y, 1) when Z = 1 and nothing else (the pairing relies on infinity normalising to (0, 0, 1))', fn.loc(), {'got': r})
         conds = sorted(str(c) for c, _ in I.returns(fn, F, True))
         cx.add('I-AFFINE', fn.short + '/branch', all('u256_cmp($self.z, SM9_MODP_MONT_ONE)' in c for c in conds), 'the shortcut is taken exactly on Z == mont(1)', fn.loc())
+
+
+_run2 = run
+
+
+def run(cx):
+    from . import scalar_rules as SR
+    _run2(cx)
+    SR.sm9_scalar(cx)
+    SR.curve_predicates(cx)
